@@ -35,7 +35,8 @@ def one(sid):
     d = V / "seeded" / sid
     meta = json.loads((d / "meta.json").read_text())
     prop = meta.get("property") or ("C" + sid.replace("harmless_", "")[1:3])
-    harmless = sid.startswith("harmless_") or meta.get("kind") == "harmless"
+    # a change whose effect a later repair in /repo has neutralised (the seeder's own demo passes with it) must stay silent
+    harmless = sid.startswith("harmless_") or meta.get("kind") == "harmless" or bool(meta.get("neutralised_by"))
     scratch = Path(tempfile.mkdtemp(prefix=f"abverif-regress-{sid}-"))
     t0 = time.time()
     try:
